@@ -134,6 +134,7 @@ const c12NoCookie = "00000000000000000000000000000000"
 // c12Block is the state of one block, living inside the bubble.
 type c12Block struct {
 	dir    string
+	floods int            // addresses used by C12.flood so far
 	slots  map[int]string // slot -> cookie value
 	tokIDs map[string]int // cookie value -> creation index
 	ma, bm int
@@ -168,14 +169,27 @@ func (b *c12Block) dump() (out []string) {
 		var rows [][3]int
 		for k, v := range rl.failedAuths {
 			idx := c12UnivIdx(k)
+			if strings.HasPrefix(k, "100.") {
+				idx = -2
+			}
 			rows = append(rows, [3]int{idx, int(v.until.UnixNano()), int(v.num)})
 		}
 		rl.failedAuthsLock.Unlock()
+		// the addresses of floods (100.64.0.0/10) are only counted
+		flood := 0
+		rows = slices.DeleteFunc(rows, func(r [3]int) bool {
+			if r[0] == -2 {
+				flood++
+			}
+
+			return r[0] == -2
+		})
 		slices.SortFunc(rows, func(x, y [3]int) int { return x[0] - y[0] })
 		out = append(out, vutil.Itoa(len(rows)))
 		for _, r := range rows {
 			out = append(out, vutil.Itoa(r[0]), vutil.Itoa(r[1]), vutil.Itoa(r[2]))
 		}
+		out = append(out, "F", vutil.Itoa(flood))
 	}
 
 	user := func(n string) string { return strings.TrimPrefix(n, "u") }
@@ -287,6 +301,129 @@ func (b *c12Block) exec(f []string) (out []string) {
 		handleLogout(httptest.NewRecorder(), r)
 
 		return append([]string{"ok"}, b.dump()...)
+	case "C12.flood":
+		// n failed logins from n fresh addresses, as far as the limiter is
+		// concerned: what handleLogin + newCookie do to it for a wrong
+		// password (check, not blocked, inc), without running bcrypt n times
+		if rl := globalContext.auth.rateLimiter; rl != nil {
+			for i, n := 0, vutil.Atoi(f[1]); i < n; i++ {
+				k := b.floods
+				b.floods++
+				addr := fmt.Sprintf("100.%d.%d.%d", 64+k/65536, k/256%256, k%256)
+				if rl.check(addr) <= 0 {
+					rl.inc(addr)
+				}
+			}
+		}
+
+		return append([]string{"ok"}, b.dump()...)
+	case "C12.heldprobe":
+		// Is the password evaluated?  The harness holds Auth.lock, which
+		// findUser needs: a request that evaluates parks there, one that is
+		// refused by the limiter first is answered right away.
+		form, peer, good, user := vutil.Atoi(f[1]), vutil.Atoi(f[2]), f[4] == "1", vutil.Atoi(f[5])
+		a := globalContext.auth
+		// GL mode makes authRequired answer without taking Auth.lock (no GL
+		// cookie in the request, so nothing else changes)
+		prevGL := GLMode
+		GLMode = form == 1
+		defer func() { GLMode = prevGL }()
+		a.lock.Lock()
+		done := make(chan struct{})
+		called, code := false, 0
+		go func() {
+			defer close(done)
+			if form == 0 {
+				w := httptest.NewRecorder()
+				globalContext.mux.ServeHTTP(w, c12LoginRequest(peer, 0, [4]int{}, user, false))
+				code = w.Code
+
+				return
+			}
+			h := optionalAuth(func(http.ResponseWriter, *http.Request) { called = true })
+			r := httptest.NewRequest(http.MethodGet, "/control/status", nil)
+			r.RemoteAddr = c12Peers[peer]
+			pass := fmt.Sprintf("pass%d", user)
+			if !good {
+				pass = "wrong"
+			}
+			r.SetBasicAuth(fmt.Sprintf("u%d", user), pass)
+			h(httptest.NewRecorder(), r)
+		}()
+		buf := make([]byte, 1<<18)
+		evaluated := false
+		for i := 0; i < 40000 && !evaluated; i++ {
+			select {
+			case <-done:
+				i = 40000
+			default:
+				runtime.Gosched()
+				evaluated = i%8 == 7 && c12Parked(buf, "home.(*Auth).findUser") > 0
+			}
+		}
+		a.lock.Unlock()
+		<-done
+		res := vutil.B(called)
+		if form == 0 {
+			res = vutil.Itoa(code)
+		}
+
+		return append([]string{vutil.B(evaluated), res}, b.dump()...)
+	case "C12.areq":
+		// a request to a protected route: cookie form x Authorization form
+		peer, ck, slot, ak, user := vutil.Atoi(f[1]), vutil.Atoi(f[3]), vutil.Atoi(f[4]), vutil.Atoi(f[5]), vutil.Atoi(f[6])
+		called := false
+		h := optionalAuth(func(http.ResponseWriter, *http.Request) { called = true })
+		r := httptest.NewRequest(http.MethodGet, "/control/status", nil)
+		r.RemoteAddr = c12Peers[peer]
+		val := b.cookie(slot)
+		bogus := fmt.Sprintf("%032x", 0xabc000+slot)
+		add := func(name, v string) { r.AddCookie(&http.Cookie{Name: name, Value: v}) }
+		switch ck {
+		case 1:
+			add(sessionCookieName, val)
+		case 2:
+			add(sessionCookieName, bogus)
+		case 3:
+			add(sessionCookieName, "zz"+val[2:31]) // not hex, odd length
+		case 4:
+			if up := strings.ToUpper(val); up != val {
+				add(sessionCookieName, up)
+			} else {
+				add(sessionCookieName, bogus)
+			}
+		case 5:
+			add(sessionCookieName, val)
+			add(sessionCookieName, bogus)
+		case 6:
+			add(sessionCookieName, bogus)
+			add(sessionCookieName, val)
+		case 7:
+			add("theme", "dark")
+			add(sessionCookieName, val)
+			add("agh_session2", bogus)
+		}
+		switch ak {
+		case 1:
+			r.SetBasicAuth(fmt.Sprintf("u%d", user), fmt.Sprintf("pass%d", user))
+		case 2:
+			r.SetBasicAuth(fmt.Sprintf("u%d", user), "wrong")
+		case 3:
+			r.SetBasicAuth("nobody", fmt.Sprintf("pass%d", user))
+		case 4:
+			r.Header.Set("Authorization", "Basic !!!not-base64!!!")
+		case 5:
+			r.Header.Set("Authorization", "Bearer "+val)
+		case 6:
+			r.SetBasicAuth("", fmt.Sprintf("pass%d", user))
+		case 7:
+			r.SetBasicAuth("", "")
+		case 8:
+			r.SetBasicAuth(fmt.Sprintf("U%d", user), fmt.Sprintf("pass%d", user))
+		}
+		h(httptest.NewRecorder(), r)
+
+		return append([]string{vutil.B(called)}, b.dump()...)
 	case "C12.basic":
 		// a request without a cookie carrying HTTP Basic credentials
 		peer, user, good := vutil.Atoi(f[1]), vutil.Atoi(f[3]), f[4] == "1"
@@ -298,7 +435,18 @@ func (b *c12Block) exec(f []string) (out []string) {
 		if !good {
 			pass = "wrong"
 		}
-		r.SetBasicAuth(fmt.Sprintf("u%d", user), pass)
+		name := fmt.Sprintf("u%d", user)
+		switch user {
+		case 2:
+			// no user name at all, a real user's password
+			name, pass = "", "pass0"
+		case 3:
+			name, pass = "", ""
+		case 4:
+			// the name in another letter case, the right password
+			name, pass = "U0", "pass0"
+		}
+		r.SetBasicAuth(name, pass)
 		h(httptest.NewRecorder(), r)
 
 		return append([]string{vutil.B(called)}, b.dump()...)
@@ -527,16 +675,26 @@ func c12CallOrder() string {
 		}
 	}
 	// the "if left := rateLimiter.check(...); left > 0 { ...; return }" statement
-	gate := pos("authhttp.go", "handleLogin", func(n ast.Node) bool {
+	isGate := func(n ast.Node) bool {
 		st, ok := n.(*ast.IfStmt)
-		if !ok || st.Init == nil {
+		if !ok {
 			return false
 		}
 		hasCheck, hasReturn := false, false
-		ast.Inspect(st.Init, func(m ast.Node) bool { hasCheck = hasCheck || (m != nil && call("check")(m)); return true })
+		look := func(m ast.Node) bool { hasCheck = hasCheck || (m != nil && call("check")(m)); return true }
+		if st.Init != nil {
+			ast.Inspect(st.Init, look)
+		}
+		ast.Inspect(st.Cond, look)
 		ast.Inspect(st.Body, func(m ast.Node) bool { _, r := m.(*ast.ReturnStmt); hasReturn = hasReturn || r; return true })
 
 		return hasCheck && hasReturn
+	}
+	gate := pos("authhttp.go", "handleLogin", isGate)
+	// checkBasicAuth: "if rateLimiter != nil && rateLimiter.check(ip) > 0 { return false }" before findUser
+	bgate := pos("authhttp.go", "checkBasicAuth", isGate)
+	beval := pos("authhttp.go", "checkBasicAuth", func(n ast.Node) bool {
+		return call("findUser")(n) || call("CompareHashAndPassword")(n)
 	})
 	eval := pos("authhttp.go", "handleLogin", func(n ast.Node) bool {
 		return call("newCookie")(n) || call("findUser")(n) || call("CompareHashAndPassword")(n)
@@ -565,7 +723,54 @@ func c12CallOrder() string {
 		}
 	}
 
-	return a + ";" + bb
+	cc := "check?findUser"
+	if beval != token.NoPos {
+		cc = "findUser<check"
+		if bgate != token.NoPos && bgate < beval {
+			cc = "check<findUser"
+		}
+	}
+
+	return a + ";" + bb + ";" + cc
+}
+
+// c12FindUserSites lists the functions of package home (non-test files) that
+// call findUser.
+func c12FindUserSites() string {
+	fset := token.NewFileSet()
+	pkgs, err := parser.ParseDir(fset, ".", func(fi os.FileInfo) bool { return !strings.HasSuffix(fi.Name(), "_test.go") }, 0)
+	if err != nil {
+		return "?"
+	}
+	seen := map[string]bool{}
+	for _, pkg := range pkgs {
+		for _, file := range pkg.Files {
+			for _, d := range file.Decls {
+				fd, ok := d.(*ast.FuncDecl)
+				if !ok || fd.Body == nil {
+					continue
+				}
+				ast.Inspect(fd.Body, func(n ast.Node) bool {
+					c, isCall := n.(*ast.CallExpr)
+					if !isCall {
+						return true
+					}
+					if sel, isSel := c.Fun.(*ast.SelectorExpr); isSel && sel.Sel.Name == "findUser" {
+						seen[fd.Name.Name] = true
+					}
+
+					return true
+				})
+			}
+		}
+	}
+	var names []string
+	for n := range seen {
+		names = append(names, n)
+	}
+	slices.Sort(names)
+
+	return strings.Join(names, " ")
 }
 
 // c12LogoutOrder extracts from the source of removeSession whether the map
@@ -674,6 +879,9 @@ func c12Run(f []string) []string {
 	if f[0] == "C12.callorder" {
 		return []string{c12CallOrder()}
 	}
+	if f[0] == "C12.findusersites" {
+		return []string{c12FindUserSites()}
+	}
 	if f[0] == "C12.reset" {
 		c12EndBlock()
 		c12Cmds, c12Done = make(chan c12Cmd), make(chan struct{})
@@ -694,6 +902,7 @@ func c12Gen(r *rand.Rand, emit vutil.Emit) {
 	const sec = 1_000_000_000
 	emit("C12.logoutorder")
 	emit("C12.callorder")
+	emit("C12.findusersites")
 	emit("C12.reset", "5", "15", "3600", "0", c12Fix())
 	emit("C12.loginlock")
 	for b := 0; b < blocks; b++ {
@@ -818,7 +1027,21 @@ func c12Gen(r *rand.Rand, emit vutil.Emit) {
 					login(hot, r.IntN(12) == 0, r.IntN(4))
 					sleep(small())
 				}
+				if r.IntN(2) == 0 {
+					// is the password of a (probably blocked) address evaluated?
+					emit("C12.heldprobe", vutil.Itoa(r.IntN(2)), vutil.Itoa(hot), vutil.Itoa(c12PeerKey(hot)), vutil.B(r.IntN(2) == 0),
+						vutil.Itoa(r.IntN(2)))
+				}
+				if r.IntN(3) == 0 {
+					// many other addresses fail meanwhile
+					emit("C12.flood", vutil.Itoa(vutil.Pick(r, []int{10, 10, 1000, 1000, 1024, 1025, 1025, 1025, 5000})))
+				}
 				login(hot, true, r.IntN(4))
+				// the address is blocked or close to it: credentials on a protected route
+				for i, n := 0, r.IntN(4); i < n; i++ {
+					emit("C12.areq", vutil.Itoa(hot), vutil.Itoa(c12PeerKey(hot)), vutil.Itoa(r.IntN(8)), vutil.Itoa(r.IntN(5)),
+						vutil.Itoa(1+r.IntN(3)), vutil.Itoa(r.IntN(2)))
+				}
 				sleep(vutil.Pick(r, []int{block - 61*sec, block - 31*sec, block - 30*sec - 1, block, block / 2}))
 				login(hot, r.IntN(2) == 0, r.IntN(4))
 				sleep(vutil.Pick(r, []int{0, 1, sec, 30 * sec}))
@@ -874,14 +1097,27 @@ func c12Gen(r *rand.Rand, emit vutil.Emit) {
 							addr = r.IntN(len(c12Peers))
 						}
 						login(addr, r.IntN(100) < 22, r.IntN(4))
+					case k < 42:
+						// a protected request: every cookie form x every Authorization form
+						p := hot
+						if r.IntN(3) == 0 {
+							p = r.IntN(len(c12Peers))
+						}
+						emit("C12.areq", vutil.Itoa(p), vutil.Itoa(c12PeerKey(p)), vutil.Itoa(r.IntN(8)), vutil.Itoa(r.IntN(5)),
+							vutil.Itoa(r.IntN(9)), vutil.Itoa(r.IntN(2)))
 					case k < 50:
 						// HTTP Basic credentials instead of a cookie
 						p := hot
 						if r.IntN(3) == 0 {
 							p = r.IntN(len(c12Peers))
 						}
-						emit("C12.basic", vutil.Itoa(p), vutil.Itoa(c12PeerKey(p)), vutil.Itoa(r.IntN(2)),
-							vutil.B(r.IntN(3) == 0), vutil.B(strings.Contains(extra, "basic") || c12Fix() == "1" || c12Fix() == "3"))
+						bu, bg := r.IntN(2), r.IntN(3) == 0
+						if r.IntN(5) == 0 {
+							// empty user name (with a real / an empty password), other letter case
+							bu, bg = 2+r.IntN(3), false
+						}
+						emit("C12.basic", vutil.Itoa(p), vutil.Itoa(c12PeerKey(p)), vutil.Itoa(bu),
+							vutil.B(bg), vutil.B(strings.Contains(extra, "basic") || c12Fix() == "1" || c12Fix() == "3"))
 					case k < 62:
 						emit("C12.req", vutil.Itoa(r.IntN(5)))
 					case k < 68:
